@@ -41,6 +41,7 @@ class State:
         self.requested = [{}]   # per scope: prefix -> set of requested uris (clash detection)
         self.flags = set()
         self.res_after_flag = False
+        self.ns_pool = {}       # (prefix, uri) -> caller-owned Namespace object, reused (its name cache fills up)
 
 
 def new_state():
@@ -142,7 +143,12 @@ def apply(s, op, ctx):
         prefix, uri = op[2], op[3]
         if not prefix:
             prefix = "q"
-        ns = scope.add_namespace(Namespace(prefix, uri)) if op[4] else scope.add_namespace(prefix, uri)
+        if op[4]:
+            # a caller-owned Namespace object that may already have minted names (module-level constants are used so)
+            obj = s.ns_pool.setdefault((prefix, uri), Namespace(prefix, uri))
+            ns = scope.add_namespace(obj)
+        else:
+            ns = scope.add_namespace(prefix, uri)
         if ns is None or ns.uri != uri:
             items.append(_item("b:add_namespace_uri", want=uri, got=getattr(ns, "uri", None)))
         else:
@@ -172,7 +178,10 @@ def apply(s, op, ctx):
     elif code == "qn":
         si = op[1] % len(s.scopes)
         scope = s.scopes[si]
-        q = QualifiedName(Namespace(op[2], op[3]), op[4])
+        if op[1] % 2 and op[2]:
+            q = s.ns_pool.setdefault((op[2], op[3]), Namespace(op[2], op[3]))[op[4]]    # minted from the shared object
+        else:
+            q = QualifiedName(Namespace(op[2], op[3]), op[4])
         r = scope.valid_qualified_name(q)
         if r is None:
             items.append(_item("a:qn_rejected", uri=q.uri))
